@@ -408,6 +408,9 @@ func expectedReadDiags(info *spec.EMsg, obj *TV, full dset, short dset) {
 		return
 	}
 	for _, f := range info.Fields {
+		if f.Placeholder {
+			continue // exists in the schema only, never read
+		}
 		var a *TV
 		ok := false
 		if obj != nil && !obj.NilC {
@@ -447,6 +450,15 @@ func expectedReadDiags(info *spec.EMsg, obj *TV, full dset, short dset) {
 			}
 		}
 	}
+}
+
+// fullSet: the diagnostics by kind and full path (each attribute's diagnostic names the field's path).
+func fullSet(ds []Diag) dset {
+	s := dset{}
+	for _, d := range ds {
+		s[[2]string{d.Kind, d.Path}] = true
+	}
+	return s
 }
 
 func shortSet(ds []Diag) dset {
@@ -553,8 +565,9 @@ func recipeMalformed(c *ctx) {
 		} else {
 			full, short := dset{}, dset{}
 			expectedReadDiags(c.info, bad, full, short)
-			got := shortSet(fr.Diags)
-			ok := dsetStr(got) == dsetStr(short) && len(fr.Diags) <= len(full)
+			got := fullSet(fr.Diags)
+			short = full
+			ok := dsetStr(got) == dsetStr(full)
 			for _, d := range fr.Diags {
 				if strings.Contains(d.Kind, "!") || d.Sev != "Error" {
 					ok = false
@@ -604,8 +617,9 @@ func recipeMalformed(c *ctx) {
 		}
 		full, short := dset{}, dset{}
 		expectedWriteDiags(c.info, v, pt, full, short)
-		got := shortSet(tr.Diags)
-		ok := dsetStr(got) == dsetStr(short) && len(tr.Diags) <= len(full)
+		got := fullSet(tr.Diags)
+		short = full
+		ok := dsetStr(got) == dsetStr(full)
 		what := ""
 		if !ok {
 			what = fmt.Sprintf("%d types removed: diagnostics %s, expected %s", removed, dsetStr(got), dsetStr(short))
